@@ -457,7 +457,11 @@ pub fn random_route(rng: &mut Rng) -> RouteSpec {
         r.bogus |= bit;
         match bit { 1 => r.lp = None, 2 => r.med = None, 4 => r.oid = None, _ => r.cl = None }
     }
-    r.peer = if r.peer_v6 { *rng.pick(&[1u128, 2, 256, 0xffffffff, 1 << 64, 1 << 120, (1 << 120) + 1, u128::MAX]) }
+    // IPv6 peers include IPv4-mapped (::ffff:a.b.c.d) and IPv4-compatible (::a.b.c.d) forms of the IPv4 pool below:
+    // an address is compared as the IpAddr it is, never through a canonical / mapped form (round-5 seed)
+    r.peer = if r.peer_v6 { *rng.pick(&[1u128, 2, 256, 0xffffffff, 1 << 64, 1 << 120, (1 << 120) + 1, u128::MAX,
+                                         0xffff_0000_0001, 0xffff_0000_0002, 0xffff_0a00_0001, 0xffff_0100_0000, 0xffff_ffff_ffff, 0xffff_0000_0000,
+                                         0x0a00_0001, 0x0100_0000, 0xfffe_ffff_ffff, 0x1_0000_0000_0000]) }
              else { *rng.pick(&[1u128, 2, 256, 0x0a000001, 0x01000000, 0xffffffff]) };
     r
 }
